@@ -184,6 +184,9 @@ def _normalize_reduction_axes(
             raise ValueError(f"{axis} is out of bounds for array of dimension"
                     f" {len(shape)}.")
 
+    if len(set(reduction_axes)) != len(reduction_axes):
+        raise ValueError("duplicate value in reduction axes")
+
     new_shape = tuple(axis_len
         for i, axis_len in enumerate(shape)
         if i not in reduction_axes)
